@@ -55,47 +55,71 @@ def _job(args):
 
 
 def run_harness(ctx, rep, modname, hname, depth=1, cap_per_job=None, pool=None, deadline=None):
-    """Walk harness `hname` completely (or up to cap_per_job leaves per prefix); aggregate into rep."""
-    h, judge = _get(modname, hname, ctx.quick, ctx.seed)
-    # determinism self-test on the first leaf
+    return run_harnesses(ctx, rep, modname, [hname], depth, cap_per_job, pool)[hname]
+
+
+def _prefix_job(args):
+    modname, hname, quick, seed, depth = args
+    h, judge = _get(modname, hname, quick, seed)
     c1, o1 = run_leaf(h, [])
     c2, o2 = run_leaf(h, [])
     if c1.labels != c2.labels or c1.counts != c2.counts:
         raise HarnessError("harness %s nondeterministic on its first leaf" % hname)
-    jobs = [(modname, hname, ctx.quick, ctx.seed, p, cap_per_job) for p in prefixes(h, depth)]
-    agg = dict(n=0, trans=0, nontriv=0, skipped=0, nv=0, capped=0, jobs=len(jobs))
-    outcomes = set()
-    counts = collections.Counter()
+    return hname, prefixes(h, depth)
+
+
+def run_harnesses(ctx, rep, modname, hnames, depth=1, cap_per_job=None, pool=None):
+    """Walk the listed harnesses completely (or up to cap_per_job leaves per prefix) on one pool; aggregate into rep."""
     own = pool is None
     if own:
         pool = ctx.pool()
+    aggs = {}
     try:
-        it = pool.imap_unordered(_job, jobs, chunksize=1)
-        for r in it:
+        jobs = []
+        for hname, pf in pool.imap_unordered(_prefix_job, [(modname, hn, ctx.quick, ctx.seed, depth) for hn in hnames]):
+            aggs[hname] = dict(n=0, trans=0, nontriv=0, skipped=0, nv=0, capped=0, jobs=len(pf), outcomes=set(),
+                               counts=collections.Counter())
+            jobs += [(modname, hname, ctx.quick, ctx.seed, p, cap_per_job) for p in pf]
+        # big harnesses first for load balance is unknown a priori: interleave by harness instead
+        jobs.sort(key=lambda j: (len(j[4]) and j[4][-1], j[1]))
+        for r, job in _imap_with_job(pool, jobs):
+            agg = aggs[job[1]]
             for k in ("n", "trans", "nontriv", "skipped", "nv"):
                 agg[k] += r[k]
             agg["capped"] += bool(r["capped"])
             rep.violations += r["vios"]
-            outcomes.update(map(_hashable, r["outcomes"]))
-            counts.update(r["counts"])
-            if len(rep.cov["samples"]) < 10 and r["samples"]:
+            agg["outcomes"].update(map(_hashable, r["outcomes"]))
+            agg["counts"].update(r["counts"])
+            if len(rep.cov["samples"]) < 10 and r["samples"] and (len(rep.cov["samples"]) < 4 or job[1] not in
+                                                                   [s_.get("harness") for s_ in rep.cov["samples"]]):
                 s = dict(r["samples"][0])
-                s["harness"] = hname
+                s["harness"] = job[1]
                 rep.cov["samples"].append(s)
     finally:
         if own:
             pool.close()
             pool.join()
-    rep.add(evaluations=agg["n"], states=agg["n"], transitions=agg["trans"], traces_validated_against_impl=agg["n"],
-            distinct_nontrivial=agg["nontriv"])
     per = rep.cov.setdefault("per_harness", {})
-    per[hname] = dict(leaves=agg["n"], skipped=agg["skipped"], nontrivial=agg["nontriv"], jobs=agg["jobs"],
-                      raw_violations=agg["nv"], distinct_outcomes=len(outcomes), capped_jobs=agg["capped"],
-                      counts=dict(counts))
-    if agg["capped"]:
-        rep.cov["exhaustive"] = False
-        rep.cov.setdefault("caps_hit", []).append("%s: %d of %d jobs stopped at %s leaves" % (hname, agg["capped"], agg["jobs"], cap_per_job))
-    return agg
+    for hname in hnames:
+        agg = aggs[hname]
+        rep.add(evaluations=agg["n"], states=agg["n"], transitions=agg["trans"], traces_validated_against_impl=agg["n"],
+                distinct_nontrivial=agg["nontriv"])
+        per[hname] = dict(leaves=agg["n"], skipped=agg["skipped"], nontrivial=agg["nontriv"], jobs=agg["jobs"],
+                          raw_violations=agg["nv"], distinct_outcomes=len(agg["outcomes"]), capped_jobs=agg["capped"],
+                          counts=dict(agg["counts"]))
+        if agg["capped"]:
+            rep.cov["exhaustive"] = False
+            rep.cov.setdefault("caps_hit", []).append("%s: %d of %d jobs stopped at %s leaves" % (hname, agg["capped"], agg["jobs"], cap_per_job))
+    return aggs
+
+
+def _job_tagged(args):
+    return _job(args), args
+
+
+def _imap_with_job(pool, jobs):
+    for r, job in pool.imap_unordered(_job_tagged, jobs, chunksize=1):
+        yield r, job
 
 
 def _hashable(x):
